@@ -31,7 +31,7 @@ func RenderDOCX(d Doc) Rendered {
 			docxTable(&b, blk.Tb, cnt, i)
 		default:
 			b.WriteString("<w:p>")
-			b.WriteString(docxPPr(blk))
+			b.WriteString(docxPPr(blk, d.Sheet))
 			for _, ch := range blk.Ch {
 				docxChild(&b, ch, cnt, Origin{Block: i, Kind: blk.K, Wrap: ch.W}, &insID)
 			}
@@ -76,7 +76,7 @@ func RenderDOCX(d Doc) Rendered {
 			`<Relationship Id="rId1" Type="http://schemas.openxmlformats.org/officeDocument/2006/relationships/officeDocument" Target="word/document.xml"/></Relationships>`)},
 		File{Name: "word/document.xml", Data: []byte(b.String())},
 		File{Name: "word/_rels/document.xml.rels", Data: []byte(rels)},
-		File{Name: "word/styles.xml", Data: []byte(docxStyles())},
+		File{Name: "word/styles.xml", Data: []byte(docxStyles(d.Sheet))},
 		File{Name: "word/numbering.xml", Data: []byte(docxNumbering())},
 	)
 	if d.Hdr == 1 {
@@ -91,7 +91,7 @@ func RenderDOCX(d Doc) Rendered {
 }
 
 // docxPPr writes the paragraph properties in CT_PPr order: pStyle, numPr, outlineLvl.
-func docxPPr(blk Block) string {
+func docxPPr(blk Block, sheet []Style) string {
 	switch blk.K {
 	case "H":
 		switch blk.How {
@@ -104,6 +104,8 @@ func docxPPr(blk Block) string {
 		default: // outline: direct formatting, 0-based (17.3.1.20)
 			return fmt.Sprintf(`<w:pPr><w:outlineLvl w:val="%d"/></w:pPr>`, blk.Lvl-1)
 		}
+	case "S": // styled with style number Sty of the sheet
+		return fmt.Sprintf(`<w:pPr><w:pStyle w:val="%s"/></w:pPr>`, docxSheetID(blk.Sty, sheet))
 	case "LI":
 		numID := 1
 		if blk.Num == "decimal" {
@@ -212,12 +214,46 @@ func docxTable(b *strings.Builder, t Tbl, cnt *counter, blk int) {
 // outline level N-1) and two generations of custom styles based on them.  The
 // heading styles carry no run formatting, so nothing but the style chain says
 // that Custom2a / Custom2b paragraphs are level-2 headings.
-func docxStyles() string {
+func docxStyles(sheet []Style) string {
 	var b strings.Builder
 	b.WriteString(xmlDecl)
 	fmt.Fprintf(&b, `<w:styles xmlns:w="%s"><w:docDefaults><w:rPrDefault><w:rPr><w:sz w:val="22"/></w:rPr></w:rPrDefault></w:docDefaults>`, nsW)
 	b.WriteString(`<w:style w:type="paragraph" w:default="1" w:styleId="Normal"><w:name w:val="Normal"/></w:style>`)
 	b.WriteString(`<w:style w:type="paragraph" w:styleId="ListParagraph"><w:name w:val="List Paragraph"/><w:basedOn w:val="Normal"/></w:style>`)
+	if len(sheet) > 0 {
+		// a document with its own style sheet: exactly the styles of the sheet
+		for i, st := range sheet {
+			id := docxSheetID(i+1, sheet)
+			name := fmt.Sprintf("Custom %c", 'A'+i)
+			custom := ` w:customStyle="1"`
+			outline := ""
+			switch st.Decl {
+			case "builtin": // the built-in heading style as Word writes it
+				name, custom, outline = fmt.Sprintf("heading %d", st.Lvl), "", fmt.Sprintf(`<w:pPr><w:outlineLvl w:val="%d"/></w:pPr>`, st.Lvl-1)
+			case "nameL": // known by its (primary) name only
+				name, custom = fmt.Sprintf("heading %d", st.Lvl), ""
+			case "nameU": // the capitalised name other producers write
+				name, custom = fmt.Sprintf("Heading %d", st.Lvl), ""
+			case "outline": // 17.3.1.20: an outline level of its own
+				outline = fmt.Sprintf(`<w:pPr><w:outlineLvl w:val="%d"/></w:pPr>`, st.Lvl-1)
+			case "none":
+			default:
+				panic("wpw: style declaration " + st.Decl + " is not in the DOCX alphabet")
+			}
+			based := ""
+			switch {
+			case st.Based >= 1:
+				based = fmt.Sprintf(`<w:basedOn w:val="%s"/>`, docxSheetID(st.Based, sheet))
+			case st.Based == -1:
+				based = `<w:basedOn w:val="Normal"/>`
+			case st.Based == -2: // refers to a style that is not defined
+				based = `<w:basedOn w:val="Heading5"/>`
+			}
+			fmt.Fprintf(&b, `<w:style w:type="paragraph"%s w:styleId="%s"><w:name w:val="%s"/>%s%s</w:style>`, custom, id, name, based, outline)
+		}
+		b.WriteString(`</w:styles>`)
+		return b.String()
+	}
 	for n := 1; n <= 6; n++ {
 		fmt.Fprintf(&b, `<w:style w:type="paragraph" w:styleId="Heading%d"><w:name w:val="heading %d"/><w:basedOn w:val="Normal"/><w:next w:val="Normal"/><w:pPr><w:outlineLvl w:val="%d"/></w:pPr></w:style>`, n, n, n-1)
 		fmt.Fprintf(&b, `<w:style w:type="paragraph" w:customStyle="1" w:styleId="Custom%da"><w:name w:val="Custom %c A"/><w:basedOn w:val="Heading%d"/><w:next w:val="Normal"/></w:style>`, n, 'A'+n-1, n)
@@ -245,4 +281,13 @@ func docxNumbering() string {
 	b.WriteString(`<w:num w:numId="1"><w:abstractNumId w:val="0"/></w:num><w:num w:numId="2"><w:abstractNumId w:val="1"/></w:num>`)
 	b.WriteString(`</w:numbering>`)
 	return b.String()
+}
+
+// docxSheetID is the w:styleId of style n (1-based) of the sheet: HeadingN for the
+// built-in heading styles, an opaque id otherwise.
+func docxSheetID(n int, sheet []Style) string {
+	if n >= 1 && n <= len(sheet) && sheet[n-1].Decl == "builtin" {
+		return fmt.Sprintf("Heading%d", sheet[n-1].Lvl)
+	}
+	return fmt.Sprintf("S%d", n)
 }
